@@ -334,7 +334,7 @@ def evaluate(ctx, group, cases, canary=False):
         terms.append(coq_case(c2, o2))
         ctx.canaries += 2
     # few large shards: coqc start-up (~1 s) dominates small ones
-    shard = min(2500, max(300, -(-len(terms) // 16)))
+    shard = min(800, max(300, -(-len(terms) // 16)))      # ~250 MB per coqc at 800 cases
     res = ctx.coq_cases(group, REQ, FN, terms, 2, shard=shard, case_ty=CASE_TY)
     if canary:
         for ag, ho in res[n_real:]:
@@ -423,15 +423,20 @@ def run(ctx):
         scopes = [((3, 2, 3), three_kinds), ((2, 2, 5), every)]
     first = True
     for scope, want in scopes:
-        cases = list(exhaustive_cases(ctx, scope, [c for c in cfgs if want(c[0])]))
+        gen = exhaustive_cases(ctx, scope, [c for c in cfgs if want(c[0])])
         group = 'exhaustive U%d P%d N%d' % scope
-        batch = 40000
-        for i in range(0, len(cases), batch):
-            res = evaluate(ctx, group, cases[i:i + batch], canary=first)
+        n_batch = 0
+        while True:
+            batch = list(itertools.islice(gen, 12800))    # streamed: memory stays bounded
+            if not batch:
+                break
+            res = evaluate(ctx, group, batch, canary=first)
             first = False
-            if i == 0:
+            if n_batch == 0:
                 for case, obs, ag, ho in res[len(res) // 3:len(res) // 3 + 2]:
                     ctx.sample({'case': case, 'observed': obs, 'agree': ag, 'holds': ho})
+            n_batch += 1
+            del res, batch
         ctx.set_exhaustive(group, True)
     # ---- random longer sequences
     n = ctx.budget(400, 4000)
@@ -452,11 +457,41 @@ def run(ctx):
             pass
 
 
-def replay(ctx, payload):
+def _payload_case(payload):
     v = payload.get('violation') or payload.get('first_disagreement') or payload
     c = v.get('case') if isinstance(v, dict) else None
     if isinstance(c, dict) and 'case' in c:
         c = c['case']
-    if not c or 'target' not in c:
+    return c if isinstance(c, dict) and 'target' in c else None
+
+
+_replayed = set()
+
+
+def replay(ctx, payload):
+    """re-runs the implementation on a recorded case.  The whole corpus directory is evaluated in
+    one Coq batch on the first call (one coqc start instead of one per file)."""
+    import json
+    import os
+    c = _payload_case(payload)
+    if not c:
         return
-    evaluate(ctx, 'replay', [c])
+    todo = [c]
+    cdir = os.path.join(os.path.dirname(os.path.dirname(os.path.abspath(__file__))), 'corpus', 'c08')
+    if os.path.isdir(cdir):
+        for fn in sorted(os.listdir(cdir)):
+            if fn.endswith('.json'):
+                try:
+                    other = _payload_case(json.load(open(os.path.join(cdir, fn))))
+                except (OSError, ValueError):
+                    other = None
+                if other:
+                    todo.append(other)
+    batch = []
+    for x in todo:
+        k = case_key(x)
+        if k not in _replayed:
+            _replayed.add(k)
+            batch.append(x)
+    if batch:
+        evaluate(ctx, 'replay', batch)
